@@ -117,9 +117,13 @@ struct scenario {
     bool subscribe;                  // the central enables notifications at its first event
     unsigned notify_permille;        // per completed connection event: chance that the application notifies somewhere before the next window
     unsigned switch_config_permille; // per completed event: chance to select another latency configuration (configuration sets only)
+    int start_config;                // latency configuration selected at the start (configuration sets)
+    unsigned notify_skips;           // number of sleeps (planned skips of >= 1 event) in which the application notifies ...
+    unsigned notify_pos;             // ... 0: right after the sleep began, 1: in the middle, 2: just before the planned event (also inside the radio's safety margin), 3: anywhere
+    long notify_not_before;          // ... counting only sleeps that begin at or after this central event / after the procedure arrived
     unsigned long max_steps;
     scenario() : drift_ppm(0), win_delta0_us(0), multi_pdu(false), run_events(60), terminate_at(-1), subscribe(false), notify_permille(0),
-                 switch_config_permille(0), max_steps(100000) {}
+                 switch_config_permille(0), start_config(0), notify_skips(0), notify_pos(3), notify_not_before(0), max_steps(100000) {}
 };
 
 inline const char* fault_name(sim::fault_t f) {
@@ -138,6 +142,7 @@ inline std::string describe(const scenario& s, unsigned local_ppm) {
                   s.notify_permille, s.switch_config_permille, static_cast<int>(s.traffic.mode), s.traffic.from_event, s.traffic.to_event, s.traffic.burst,
                   s.traffic.min_len, s.traffic.max_len);
     std::string r = b;
+    if (s.notify_skips) r += " notify_in_sleeps{count=" + std::to_string(s.notify_skips) + " pos=" + std::to_string(s.notify_pos) + " not_before_event=" + std::to_string(s.notify_not_before) + "} start_config=" + std::to_string(s.start_config);
     if (!s.faults.empty()) {
         r += " faults{";
         unsigned n = 0;
@@ -499,6 +504,66 @@ struct generator {
         return s;
     }
 
+    // ---------------------------------------------------------------- shared by c21 / c22 / c23
+    // A sleeping peripheral (latency > 0, listen_if_pending_transmit_data) whose planned event is pulled back because the
+    // application notifies mid-sleep - while an instant based procedure is pending (instant 2..latency+3 events ahead, so
+    // that the skip is both clamped and not clamped by the instant) and, as control, without a procedure.
+    scenario pull_back_family(verif::prng& r, unsigned long long idx, const std::string& mode) const {
+        scenario s; s.mode = mode;
+        static const unsigned lats[] = { 1, 3, 10 };
+        random_valid_params(r, s.params, 0);
+        s.params.interval = 6 + r.below(60);
+        s.params.latency = lats[idx % 3];
+        s.params.timeout = 3200;
+        fit_window(s.params);
+        const unsigned kind = static_cast<unsigned>((idx / 3) % 4);          // 3 = control
+        // 2 .. latency + 3 events ahead; where the reception of the indication itself forces the next event to be attended
+        // (listen_if_last_received_not_empty in every selectable configuration) the sleep starts one event later
+        const long first = n_configs == 1 && (features_all & F_RX_NOT_EMPTY) ? 3 : 2;
+        const long delta = first + static_cast<long>((idx / 12) % (s.params.latency + 4 - first));
+        s.cls = kind == 3 ? "pull_back_control" : "pending_procedure_pull_back";
+        s.drift_ppm = pick_drift(r, sim::sca_ppm_table[s.params.sca] + local_ppm);
+        static const unsigned margins[] = { 100, 300, 1000, 3000 };
+        s.ropt.disarm_margin_us = margins[r.below(4)];
+        s.ropt.setup_margin_us = r.chance(1, 2) ? 0 : s.ropt.disarm_margin_us;
+        s.subscribe = true;
+        s.notify_skips = 1 + r.below(3);
+        s.notify_pos = static_cast<unsigned>((idx / 12 / 13) % 3);
+        if (r.chance(1, 5)) s.notify_pos = 3;
+        // configuration sets: strict (pending data | MD) or the default configuration, both contain listen_if_pending_transmit_data
+        s.start_config = n_configs > 1 ? (r.chance(1, 2) ? 1 : 3) : 0;
+        const long at = 6 + static_cast<long>(r.below(2 * (s.params.latency + 1)));
+        s.notify_not_before = at;
+        if (kind != 3) {
+            sim::procedure p;
+            p.kind = static_cast<sim::procedure::kind_t>(kind);
+            p.delta = delta;
+            if (p.kind == sim::procedure::conn_update) {
+                const sim::procedure u = random_update(r, s.params, 10);
+                p.win_size = u.win_size; p.win_offset = u.win_offset; p.interval = u.interval; p.latency = u.latency; p.win_delta_us = u.win_delta_us;
+                p.timeout = 3200;
+                if (p.interval > 80) p.interval = 6 + r.below(75);
+                if (p.interval == s.params.interval) p.interval = p.interval == 6 ? 9 : p.interval - 1;
+                if (p.win_size > p.interval - 1) p.win_size = p.interval - 1;
+                if (p.win_size > 8) p.win_size = 8;
+                if (p.win_offset > p.interval) p.win_offset = p.interval;
+                if (p.win_delta_us > p.win_size * 1250u) p.win_delta_us = p.win_size * 1250u;
+                while (min_timeout_for(p.interval, p.latency) > 3200) p.latency /= 2;
+            } else if (p.kind == sim::procedure::chan_map) {
+                do { p.map = random_map(r, 2); } while ((p.map & 0x1fffffffffull) == (s.params.map & 0x1fffffffffull));
+            } else {
+                static const std::uint8_t phys[][2] = { { 2, 2 }, { 2, 0 }, { 0, 2 }, { 2, 1 }, { 1, 2 } };
+                const unsigned k = r.below(5);
+                p.c2p = phys[k][0]; p.p2c = phys[k][1];
+            }
+            p.bind_late = true;
+            s.procs.push_back(std::make_pair(at, p));
+        }
+        s.run_events = at + (s.params.latency + 1) * (5 + 2 * s.notify_skips) + delta + 12;
+        return s;
+    }
+    bool has_pending_data_option() const { return (features_all & F_PENDING) != 0; }
+
     // ---------------------------------------------------------------- C20 end to end
     scenario c20(verif::prng& r, unsigned long long index) const {
         scenario s; s.mode = "c20";
@@ -584,7 +649,7 @@ struct runner {
         for (std::size_t i = 0; i < s.procs.size(); ++i) central.add_procedure(s.procs[i].second, s.procs[i].first);
         if (s.terminate_at >= 0) central.terminate_at(s.terminate_at, 0x13);
         if (s.subscribe) { std::vector<std::uint8_t> v; v.push_back(1); v.push_back(0); central.write_request_at(0, 4, v); }
-        int cfg = 0;
+        int cfg = s.start_config >= 0 && s.start_config < static_cast<int>(Traits::configs) ? s.start_config : 0;
         Traits::select(*ll, cfg);
         mon.c = &central; mon.radio = &rc; mon.local_ppm = Traits::local_sca_ppm; mon.features = Traits::features(cfg);
         mon.config = Traits::name(); mon.scenario = describe(s, Traits::local_sca_ppm); mon.step = step;
@@ -600,6 +665,7 @@ struct runner {
         unsigned long adv_at_close = 0;
         bool closed_seen = false;
         unsigned last_heard = 0;
+        unsigned notify_skips_left = s.notify_skips;
         bool planned_end = false;
         const bool expect_connection = sim::connect_ind_defects(s.params).empty();
         while (steps++ < s.max_steps) {
@@ -629,6 +695,27 @@ struct runner {
                     mon.features = Traits::features(cfg);
                     rc.log(std::string("application selects latency configuration #") + std::to_string(cfg) + ": " + features_str(mon.features));
                     verif::mon("C23").count("configuration_switches");
+                }
+                if (notify_skips_left && rc.connection_event_pending() && !rc.current().in_past) {
+                    // a sleep: the planned event is not the next one. Only sleeps that begin after the procedure arrived (control: after
+                    // the event it would have been queued at) are used
+                    const long planned = monitor::K_of(rc.current());
+                    const bool armed = s.procs.empty() ? mon.last_completed_K >= s.notify_not_before : (!mon.pobs.empty() && mon.pobs[0].c_rx >= 0);
+                    const sim::vtime opens = rc.pending_window_start();
+                    const sim::vtime gap = opens - rc.now();
+                    if (armed && planned - mon.last_completed_K >= 2 && gap > 10) {
+                        --notify_skips_left;
+                        sim::vtime at;
+                        const sim::vtime span = static_cast<sim::vtime>(s.ropt.disarm_margin_us) * 2 + 50;
+                        switch (s.notify_pos) {
+                        case 0: at = rc.now() + 1 + static_cast<sim::vtime>(r.below(static_cast<std::uint32_t>(gap < 2000 ? gap : 2000))); break;
+                        case 1: at = rc.now() + gap / 2 + static_cast<sim::vtime>(r.below(static_cast<std::uint32_t>(gap / 4 + 1))) - gap / 8; break;
+                        case 2: at = opens - 1 - static_cast<sim::vtime>(r.below(static_cast<std::uint32_t>(gap < span ? gap : span))); break;
+                        default: at = rc.now() + 1 + static_cast<sim::vtime>(r.next() % static_cast<std::uint64_t>(gap - 1)); break;
+                        }
+                        rc.pause_at(at);
+                        mon.note_notify_in_sleep(planned);
+                    }
                 }
                 if (s.notify_permille && r.below(1000) < s.notify_permille) {
                     const sim::vtime opens = rc.pending_window_start();
@@ -742,7 +829,12 @@ int harness_main(int argc, char** argv) {
         verif::prng r(ss);
         // the scenario index walks the grid; the seed shifts the walk so that different seeds visit different grid cells first
         const unsigned long long index = n + seed * 7919ull;
-        scenario s = mode == "c21" ? g.c21(r, index) : (mode == "c23" ? g.c23(r, index) : (mode == "c20" ? g.c20(r, index) : g.c22(r, index)));
+        // every 4th scenario of c21 / c22 / c23 belongs to the shared pull-back family (option sets with listen_if_pending_transmit_data
+        // only); the others walk the mode's own grid without gaps
+        const bool family = mode != "c20" && g.has_pending_data_option() && index % 4 == 3;
+        const unsigned long long own = mode != "c20" && g.has_pending_data_option() ? index - index / 4 - (index % 4 == 3 ? 1 : 0) : index;
+        scenario s = family ? g.pull_back_family(r, index / 4, mode)
+                            : (mode == "c21" ? g.c21(r, own) : (mode == "c23" ? g.c23(r, own) : (mode == "c20" ? g.c20(r, index) : g.c22(r, own))));
         if (a.has("only_class") && s.cls != a.str("only_class")) continue;
         verif::ctx_step(n);
         const std::string d = describe(s, Traits::local_sca_ppm);
